@@ -48,6 +48,25 @@ class CheckContext:
         self.rules: Dict[str, str] = {}
         self.assumptions: List[str] = []
         self.errors: List[str] = []
+        self.abstained: List[dict] = []
+        # strict: the analysed tree is the pinned reference tree, whose rule instances were confirmed by hand - there an unrecognised form
+        # or a missing instance means the ANALYSER is broken (exit 2).  On any other tree a rule that does not recognise the code abstains.
+        self.strict = False
+
+    def abstain(self, rule: str, why: str):
+        if self.strict:
+            self.error(f"{rule}: {why}")
+        else:
+            self.abstained.append({"rule": rule, "why": why})
+
+    def guard(self, fn, *args, **kw):
+        """run one rule; a construct it cannot interpret makes that rule abstain instead of aborting the whole check"""
+        from .model import AnalysisError
+        try:
+            return fn(*args, **kw)
+        except AnalysisError as e:
+            self.abstain(getattr(fn, "__name__", str(fn)), str(e))
+            return None
 
     def rule(self, rid: str, text: str):
         self.rules[rid] = text
@@ -66,6 +85,26 @@ class CheckContext:
 
     def count(self, rule: str) -> int:
         return sum(1 for o in self.obligations if o.rule == rule)
+
+
+GENERIC_RULES = {"TRUTHY", "MEMO-KEY", "MEMO-DEP", "RECOMPUTE", "ARG-TYPE"}
+
+
+def tree_is_reference(root: str) -> bool:
+    """is the package under `root` byte-identical to the frozen reference tree (fixtures/reference)?"""
+    import hashlib
+
+    def digest(r):
+        h = hashlib.sha256()
+        for dp, dn, fn in os.walk(os.path.join(r, "OpenPinch")):
+            dn[:] = sorted(d for d in dn if d != "__pycache__")
+            for f in sorted(fn):
+                if f.endswith(".py"):
+                    h.update(os.path.relpath(os.path.join(dp, f), r).encode())
+                    h.update(open(os.path.join(dp, f), "rb").read())
+        return h.hexdigest()
+    ref = os.path.join(VERIF, "fixtures", "reference")
+    return os.path.isdir(ref) and digest(ref) == digest(root)
 
 
 def load_known() -> dict:
@@ -87,7 +126,11 @@ def finish(ctx: CheckContext, t0: float, seed: int = 0) -> int:
     for rule, n in ctx.floors.items():
         c = ctx.count(rule)
         if c < n:
-            ctx.error(f"rule {rule}: {c} instance(s) analysed, floor is {n} (anchor vanished or unrecognised form)")
+            ctx.abstain(rule, f"{c} instance(s) analysed, {n} confirmed by hand on the reference tree (anchor vanished or unrecognised form)")
+    specific = [o for o in ctx.obligations if o.rule not in GENERIC_RULES]
+    if not specific and not ctx.errors and not getattr(ctx, 'replay', False):
+        ctx.error("no property-specific rule found anything to decide on this tree (every anchor vanished): " +
+                  "; ".join(f"{a['rule']}: {a['why']}" for a in ctx.abstained[:4]))
     for c in ctx.controls:
         if not c["skipped"] and c["expected"] != c["got"]:
             ctx.error(f"control '{c['name']}' expected {c['expected']} but rule reported {c['got']}")
@@ -112,6 +155,8 @@ def finish(ctx: CheckContext, t0: float, seed: int = 0) -> int:
             print(f"    {dk}: {dv}")
         print(f"VIOLATION property={ctx.prop} replay={rp}")
         status = 1
+    for a in ctx.abstained:
+        print(f"NOTE: property={ctx.prop} rule {a['rule']} abstains on this tree: {a['why']}")
     if ctx.errors:
         for e in ctx.errors:
             print(f"ANALYSIS-ERROR: property={ctx.prop} {e}")
@@ -151,6 +196,8 @@ def finish(ctx: CheckContext, t0: float, seed: int = 0) -> int:
             "known_findings_echoed": [f"{o.rule} {o.key}" for o in known_hit],
             "new_violations": [f"{o.rule} {o.key} @ {o.loc}" for o in new_viol],
             "analysis_errors": ctx.errors,
+            "abstained_rules": ctx.abstained,
+            "strict_reference_tree": ctx.strict,
             "exhaustive": True,
             "checker_cmd": f"./check {ctx.prop} --tier {ctx.tier}",
             "trusted_base": ["CPython ast", "opstatic analysers", "repository parsed from the working tree"],
